@@ -268,6 +268,9 @@ class ParseContext(ParserEngine):
 
     @contextmanager
     def nameset(self, name: str) -> Any:
+        # NOTE: an expression that adds no node (a skipped optional, a lookahead)
+        #   must not bind the node that came before it
+        self.state.last_node = None
         yield
         self.state.nameset(name)
 
@@ -275,6 +278,7 @@ class ParseContext(ParserEngine):
 
     @contextmanager
     def nameadd(self, name: str) -> Any:
+        self.state.last_node = None
         yield
         self.state.nameadd(name)
 
@@ -282,11 +286,13 @@ class ParseContext(ParserEngine):
 
     @contextmanager
     def result(self) -> Any:
+        self.state.last_node = None
         yield
         self.state.nameset(_AT_)
 
     @contextmanager
     def resultadd(self) -> Any:
+        self.state.last_node = None
         yield
         self.state.nameadd(_AT_)
 
